@@ -7,6 +7,7 @@ CONSTANTS
   Runs = 1
   FirstVisitCounts = TRUE
   WaitForVisited = TRUE
+  UnvisitedIsTop = FALSE
   RootsAreEntries = TRUE
   Loop = TRUE
 INVARIANTS SweepBound Consistent EdgesStopAtExits RoundsBound
